@@ -4,22 +4,25 @@
    get_index_*_atom and get_max_*partial_derivatives arm by arm; where the full statement is false of the
    faithful model there is a [_refuted] theorem with a witness (confirmed on the real code by the check) next
    to the version with the minimal explicit guard. *)
-From Coq Require Import String List Bool Arith Permutation.
+From Coq Require Import String List Bool Arith Permutation Lia.
 From V Require Import Model.NamesM Proofs.NamesP.
 Import ListNotations.
 Open Scope string_scope.
 
 (* ---------------------------------------------------------------- naming *)
 (* Two chains (of any length, over scalar functions or vector components, physical or logical) get the same
-   symbol exactly when component and multi-index coincide.  Guards: function names do not contain the
-   separator '_' (hygiene) and a chain does not mix physical with logical operators (pure). *)
+   symbol exactly when component and multi-index coincide.  Guards: the atoms are plain functions / components
+   (funatom0), function names do not contain the separator '_' (hygiene) and a chain does not mix physical with
+   logical operators (pure).  Names are outcomes ([res]): a symbol name or the exception SymbolicExpr raises. *)
 Theorem C17_same_symbol_iff : forall ops1 a1 ops2 a2,
+  funatom0 a1 = true -> funatom0 a2 = true ->
   nosep (fname a1) -> nosep (fname a2) -> pure ops1 = true -> pure ops2 = true ->
   (symbolic (Chain ops1 a1) = symbolic (Chain ops2 a2) <-> a1 = a2 /\ multi_index ops1 = multi_index ops2).
 Proof. exact same_symbol_iff. Qed.
 Print Assumptions C17_same_symbol_iff.
 
 Theorem C17_sym_name_iff : forall ops1 a1 ops2 a2,
+  funatom0 a1 = true -> funatom0 a2 = true ->
   nosep (fname a1) -> nosep (fname a2) -> pure ops1 = true -> pure ops2 = true ->
   (chain_name ops1 a1 = chain_name ops2 a2 <-> a1 = a2 /\ multi_index ops1 = multi_index ops2).
 Proof. exact sym_name_iff. Qed.
@@ -28,10 +31,39 @@ Print Assumptions C17_sym_name_iff.
 (* the same under a sharper, pairwise hygiene that admits names like u_h: neither function name is the other one
    followed by '_' and more (ext n m := exists t, n = m ++ "_" ++ t) *)
 Theorem C17_sym_name_iff_family : forall ops1 a1 ops2 a2,
+  funatom0 a1 = true -> funatom0 a2 = true ->
   ~ ext (fname a1) (fname a2) -> ~ ext (fname a2) (fname a1) -> pure ops1 = true -> pure ops2 = true ->
   (chain_name ops1 a1 = chain_name ops2 a2 <-> a1 = a2 /\ multi_index ops1 = multi_index ops2).
 Proof. exact sym_name_iff_family. Qed.
 Print Assumptions C17_sym_name_iff_family.
+
+(* ALL atoms a chain can be applied to - functions, components, their restrictions to one side of an interface
+   (minus / plus), components M[i] of a mapping: the same symbol exactly when the multi-index and what the symbol
+   identifies coincide.  [akey_of] forgets the side of an interface and the mapping a component belongs to (it
+   keeps the index and whether the mapping is the plus side of an interface).  Hygiene [hyg]: function names
+   without '_' that are not the reserved coordinate names x, y, z; mapping components 0, 1, 2. *)
+Theorem C17_sym_name_iff_all_atoms : forall ops1 a1 ops2 a2,
+  hyg a1 -> hyg a2 -> pure ops1 = true -> pure ops2 = true ->
+  (chain_name ops1 a1 = chain_name ops2 a2 <-> akey_of a1 = akey_of a2 /\ multi_index ops1 = multi_index ops2).
+Proof. exact sym_name_iff_ext. Qed.
+Print Assumptions C17_sym_name_iff_all_atoms.
+
+Theorem C17_same_symbol_iff_all_atoms : forall ops1 a1 ops2 a2,
+  hyg a1 -> hyg a2 -> pure ops1 = true -> pure ops2 = true ->
+  (symbolic (Chain ops1 a1) = symbolic (Chain ops2 a2) <->
+   akey_of a1 = akey_of a2 /\ multi_index ops1 = multi_index ops2).
+Proof. exact same_symbol_iff_ext. Qed.
+Print Assumptions C17_same_symbol_iff_all_atoms.
+
+(* a hygienic atom under a pure chain always has a name; a fourth, fifth, ... component of a mapping never *)
+Theorem C17_hygienic_chain_is_named : forall ops a,
+  hyg a -> pure ops = true -> exists s, chain_name ops a = Ok s.
+Proof. exact hyg_chain_named. Qed.
+Print Assumptions C17_hygienic_chain_is_named.
+
+Theorem C17_wrong_index_raises : forall ops m i, 3 <= i -> chain_name ops (FMap m i) = Err EValue.
+Proof. exact wrong_index_raises. Qed.
+Print Assumptions C17_wrong_index_raises.
 
 (* the symbol is the canonical spelling of the identity: base name, component index, sorted code *)
 Theorem C17_name_is_canonical : forall ops a,
@@ -47,67 +79,138 @@ Print Assumptions C17_order_of_differentiation.
 
 (* without hygiene: dx(u) and the function literally named u_x *)
 Theorem C17_name_collision_refuted :
-  exists ops1 a1 ops2 a2, pure ops1 = true /\ pure ops2 = true /\
+  exists ops1 a1 ops2 a2, funatom0 a1 = true /\ funatom0 a2 = true /\ pure ops1 = true /\ pure ops2 = true /\
     chain_name ops1 a1 = chain_name ops2 a2 /\ ~ (a1 = a2 /\ multi_index ops1 = multi_index ops2).
 Proof. exact name_collision_refuted. Qed.
 Print Assumptions C17_name_collision_refuted.
 
 (* without hygiene: the component w[0] and the function named w_0 *)
 Theorem C17_component_collision_refuted :
-  exists a1 a2, a1 <> a2 /\ chain_name [] a1 = chain_name [] a2.
+  exists a1 a2, funatom0 a1 = true /\ funatom0 a2 = true /\ a1 <> a2 /\ chain_name [] a1 = chain_name [] a2.
 Proof. exact component_collision_refuted. Qed.
 Print Assumptions C17_component_collision_refuted.
 
 (* mixed physical-of-logical chains: the outer code is dropped, dx(dx1(u)) and dx1(u) share a symbol ... *)
 Theorem C17_mixed_chain_refuted :
-  exists ops1 ops2 a, nosep (fname a) /\
+  exists ops1 ops2 a, funatom0 a = true /\ nosep (fname a) /\
     chain_name ops1 a = chain_name ops2 a /\ multi_index ops1 <> multi_index ops2.
 Proof. exact mixed_chain_refuted. Qed.
 Print Assumptions C17_mixed_chain_refuted.
 
 (* ... and the order of differentiation matters for them: dx(dx1(u)) vs dx1(dx(u)) *)
 Theorem C17_mixed_order_refuted :
-  exists ops1 ops2 a, nosep (fname a) /\ Permutation ops1 ops2 /\ chain_name ops1 a <> chain_name ops2 a.
+  exists ops1 ops2 a, funatom0 a = true /\ nosep (fname a) /\ Permutation ops1 ops2 /\ chain_name ops1 a <> chain_name ops2 a.
 Proof. exact mixed_order_refuted. Qed.
 Print Assumptions C17_mixed_order_refuted.
 
+(* what the symbols of the other atoms forget (each witness is confirmed on the real code by the check) *)
+(* the side of an interface: minus(u) and plus(u) share every symbol; so do minus(u) and u *)
+Theorem C17_interface_side_refuted :
+  exists a1 a2, hyg a1 /\ hyg a2 /\ a1 <> a2 /\ forall ops, chain_name ops a1 = chain_name ops a2.
+Proof. exact side_collision_refuted. Qed.
+Print Assumptions C17_interface_side_refuted.
+
+Theorem C17_interface_side_plain_refuted :
+  exists a1 a2, hyg a1 /\ hyg a2 /\ a1 <> a2 /\ chain_name [Dx] a1 = chain_name [Dx] a2.
+Proof. exact side_collision_plain_refuted. Qed.
+Print Assumptions C17_interface_side_plain_refuted.
+
+(* the mapping: M[0] and N[0] of two different mappings *)
+Theorem C17_mapping_name_refuted :
+  exists m1 m2 i, m1 <> m2 /\ hyg (FMap m1 i) /\ hyg (FMap m2 i) /\
+    forall ops, chain_name ops (FMap m1 i) = chain_name ops (FMap m2 i).
+Proof. exact mapping_collision_refuted. Qed.
+Print Assumptions C17_mapping_name_refuted.
+
+(* x, y, z are reserved: a function called x (no separator in it) and M[0]; M[0] and the coordinate symbol x *)
+Theorem C17_coordinate_name_refuted :
+  exists a1 a2, funatom0 a1 = true /\ nosep (fname a1) /\ hyg a2 /\ akey_of a1 <> akey_of a2 /\
+    chain_name [] a1 = chain_name [] a2 /\ chain_name [D1] a1 = chain_name [D1] a2.
+Proof. exact coordinate_collision_refuted. Qed.
+Print Assumptions C17_coordinate_name_refuted.
+
+Theorem C17_coordinate_symbol_refuted :
+  symbolic (Chain [] (FMap (MPlain "M" SNone) 0)) = symbolic (Sym "x").
+Proof. exact coordinate_symbol_refuted. Qed.
+Print Assumptions C17_coordinate_symbol_refuted.
+
+(* geometry atoms (Mapping, SymbolicWeightedVolume, SymbolicDeterminant): the symbol is spelled from the name of
+   the mapping; the weighted volume of an interface is the one of its minus side *)
+Theorem C17_geometry_names : forall g,
+  gatom_name g = match g with
+                 | GMap m => map_name m
+                 | GWvol m => "wvol_" ++ map_name (map_minus m)
+                 | GDet false m => "det_" ++ map_name m
+                 | GDet true m => "det_Jacobian(" ++ map_name m ++ ")"
+                 end.
+Proof. exact geo_name_spec. Qed.
+Print Assumptions C17_geometry_names.
+
+Theorem C17_geometry_collision_refuted :
+  (exists g1 g2, g1 <> g2 /\ gatom_name g1 = gatom_name g2) /\
+  (exists g a, funatom0 a = true /\ symbolic (Geo g) = symbolic (Chain [] a)).
+Proof. exact geometry_collision_refuted. Qed.
+Print Assumptions C17_geometry_collision_refuted.
+
 (* ---------------------------------------------------------------- SymbolicExpr commutes with + * ^ functions, tuples, matrices *)
-Theorem C17_symbolic_add : forall l, symbolic (Add l) = Add (map symbolic l).
+(* outcomes: [rmap C (mapM f l)] = C applied to the translated arguments, or the exception of the first argument
+   (left to right) that has no translation; [rpow] = Pow with the base translated first *)
+Theorem C17_symbolic_add : forall l, symbolic (Add l) = rmap Add (mapM symbolic l).
 Proof. exact symbolic_add. Qed.
 Print Assumptions C17_symbolic_add.
 
-Theorem C17_symbolic_mul : forall l, symbolic (Mul l) = Mul (map symbolic l).
+Theorem C17_symbolic_mul : forall l, symbolic (Mul l) = rmap Mul (mapM symbolic l).
 Proof. exact symbolic_mul. Qed.
 Print Assumptions C17_symbolic_mul.
 
 Theorem C17_symbolic_pow_partial : forall b x,
-  plainb x = true -> symbolic (Pow b x) = Pow (symbolic b) (symbolic x).
+  plainb x = true -> symbolic (Pow b x) = rpow (symbolic b) (symbolic x).
 Proof. exact symbolic_pow_const. Qed.
 Print Assumptions C17_symbolic_pow_partial.
 
-Theorem C17_symbolic_function : forall f l, symbolic (Fn f l) = Fn f (map symbolic l).
+Theorem C17_symbolic_function : forall f l, symbolic (Fn f l) = rmap (Fn f) (mapM symbolic l).
 Proof. exact symbolic_fn. Qed.
 Print Assumptions C17_symbolic_function.
 
 Theorem C17_symbolic_tuple : forall l,
-  symbolic (Tup l) = Tup (map symbolic l) /\ symbolic (Seq l) = Tup (map symbolic l).
+  symbolic (Tup l) = rmap Tup (mapM symbolic l) /\ symbolic (Seq l) = rmap Tup (mapM symbolic l).
 Proof. exact symbolic_tuple. Qed.
 Print Assumptions C17_symbolic_tuple.
 
-Theorem C17_symbolic_matrix : forall imm rows, symbolic (Mat imm rows) = Mat imm (map (map symbolic) rows).
+Theorem C17_symbolic_matrix : forall imm rows,
+  symbolic (Mat imm rows) = rmap (Mat imm) (mapM (mapM symbolic) rows).
 Proof. exact symbolic_matrix. Qed.
 Print Assumptions C17_symbolic_matrix.
+
+(* interface operators and pull-backs are transparent; plain sympy atoms are passed through; geometry atoms
+   become the symbol with their name; an object without an arm raises NotImplementedError *)
+Theorem C17_symbolic_transparent : forall p f v e ops a,
+  symbolic (Side p e) = symbolic e /\ symbolic (PB f v e) = symbolic e /\
+  symbolic (Chain ops (FSide p a)) = symbolic (Chain ops a).
+Proof. intros. split; [apply symbolic_side|split; [apply symbolic_pullback|apply symbolic_side_atom]]. Qed.
+Print Assumptions C17_symbolic_transparent.
+
+Theorem C17_symbolic_atoms :
+  (forall s, symbolic (Sym s) = Ok (Sym s)) /\ (forall s, symbolic (IBase s) = Ok (IBase s)) /\
+  (forall s, symbolic (IdxS s) = Ok (IdxS s)) /\ symbolic ImI = Ok ImI /\ (forall s, symbolic (Num s) = Ok (Num s)).
+Proof. exact symbolic_passthrough. Qed.
+Print Assumptions C17_symbolic_atoms.
+
+Theorem C17_symbolic_geometry : forall g b,
+  symbolic (Geo g) = Ok (Sym (gatom_name g)) /\ symbolic (Opaque b) = Err ENotImpl.
+Proof. intros. split; [apply symbolic_geo|apply symbolic_opaque]. Qed.
+Print Assumptions C17_symbolic_geometry.
 
 (* altogether: SymbolicExpr is the homomorphic extension of chain -> symbol, and nothing terminal is left,
    provided no exponent contains a terminal expression *)
 Theorem C17_symbolic_is_substitution_partial : forall e,
-  exps_plain e = true -> symbolic e = subst chain_name e /\ plainb (symbolic e) = true.
-Proof. intros e H. split; [exact (symbolic_is_subst e H)|exact (symbolic_plain e H)]. Qed.
+  exps_plain e = true -> symbolic e = subst chain_name e /\ (forall r, symbolic e = Ok r -> plainb r = true).
+Proof. intros e H. split; [exact (symbolic_is_subst e H)|intros r; exact (symbolic_plain e r H)]. Qed.
 Print Assumptions C17_symbolic_is_substitution_partial.
 
-(* the exponent is passed through: SymbolicExpr(2**dx(u)) = 2**dx(u) *)
+(* the exponent is passed through: SymbolicExpr(2**dx(u)) = 2**dx(u)   (the code before 1e5436c) *)
 Theorem C17_symbolic_pow_refuted :
-  exists b x, symbolic (Pow b x) <> Pow (symbolic b) (symbolic x) /\ plainb (symbolic (Pow b x)) = false.
+  exists b x r, symbolic (Pow b x) <> rpow (symbolic b) (symbolic x) /\ symbolic (Pow b x) = Ok r /\ plainb r = false.
 Proof. exact symbolic_pow_refuted. Qed.
 Print Assumptions C17_symbolic_pow_refuted.
 
@@ -123,16 +226,18 @@ Theorem C17_max_logical_never_more : forall e q t d,
 Proof. exact max_log_le_true. Qed.
 Print Assumptions C17_max_logical_never_more.
 
-(* equal to the true maximum over ALL chains of the kernel - on the fragment the traversal enters
-   (Add / Mul / Pow base / Tuple / list), for pure chains, overall or for one scalar function / component *)
+(* equal to the true maximum over ALL chains of the kernel over functions and components (a chain over a mapping
+   component is no derivative of a function; a function restricted to a side of an interface is still that
+   function) - on the fragment the traversal enters (Add / Mul / Pow base / Tuple / list), for pure chains over
+   unrestricted functions, overall or for one scalar function / component *)
 Theorem C17_max_physical_exact_partial : forall e q t d,
-  entered e = true -> pure_chains e = true -> novec q ->
+  entered e = true -> pure_chains e = true -> unsided_chains e = true -> novec q ->
   get_max_phys e q = Some t -> is_phys d = true -> proj_of d t = true_max d e q.
 Proof. exact max_phys_exact. Qed.
 Print Assumptions C17_max_physical_exact_partial.
 
 Theorem C17_max_logical_exact_partial : forall e q t d,
-  entered e = true -> pure_chains e = true -> novec q ->
+  entered e = true -> pure_chains e = true -> unsided_chains e = true -> novec q ->
   get_max_log e q = Some t -> is_log d = true -> proj_of d t = true_max d e q.
 Proof. exact max_log_exact. Qed.
 Print Assumptions C17_max_logical_exact_partial.
@@ -179,39 +284,67 @@ Theorem C17_max_vector_query_refuted :
 Proof. exact max_vector_query_refuted. Qed.
 Print Assumptions C17_max_vector_query_refuted.
 
+(* chains over a function restricted to one side of an interface are found but not counted, overall and for F = u
+   (also by the current code) *)
+Theorem C17_max_interface_side_refuted :
+  exists e, entered e = true /\ pure_chains e = true /\
+    get_max_phys e None = Some (0, 0, 0) /\ get_max_phys e (Some (QAtom u)) = Some (0, 0, 0) /\
+    get_max_phys_g true true false e None = Some (0, 0, 0) /\
+    true_max Dx e None = 1 /\ true_max Dx e (Some (QAtom u)) = 1.
+Proof. exact max_side_refuted. Qed.
+Print Assumptions C17_max_interface_side_refuted.
+
 (* ---------------------------------------------------------------- the proposed repairs (flags of the model) *)
-(* the flagged functions with all flags false are the functions of the current code, so everything above is about
-   what the case files evaluate *)
+(* the flagged functions with all flags false are the functions of the original code (the case files evaluate the
+   variant whose flags are read from the source: pe, ea, vq are true since 1e5436c / fa734e5 / d881220, sq is the
+   proposed repair fix-sided-atom-orders) *)
 Theorem C17_current_code_is_all_flags_false : forall e q,
   symbolic_g false e = symbolic e /\ find_pd_g false e = find_pd e /\
-  get_max_phys_g false false e q = get_max_phys e q /\ get_max_log_g false false e q = get_max_log e q.
+  get_max_phys_g false false false e q = get_max_phys e q /\ get_max_log_g false false false e q = get_max_log e q.
 Proof. exact current_code_is_all_flags_false. Qed.
 Print Assumptions C17_current_code_is_all_flags_false.
 
 (* with the exponent translated: the homomorphic extension for every kernel, nothing terminal left *)
 Theorem C17_repaired_symbolic_is_substitution : forall e,
-  symbolic_g true e = subst chain_name e /\ plainb (symbolic_g true e) = true.
-Proof. intros e. split; [exact (symbolic_g_true_is_subst e)|exact (symbolic_g_true_plain e)]. Qed.
+  symbolic_g true e = subst chain_name e /\ (forall r, symbolic_g true e = Ok r -> plainb r = true).
+Proof. intros e. split; [exact (symbolic_g_true_is_subst e)|intros r; exact (symbolic_g_true_plain e r)]. Qed.
 Print Assumptions C17_repaired_symbolic_is_substitution.
 
-(* with every sub-expression entered and VectorFunction queries: equal to the true maximum for EVERY kernel
-   (matrices, functions, exponents) and every query; the remaining guard is pure chains *)
+(* SymbolicExpr returns a result exactly when every object of the kernel has a translation (no object without an
+   arm, no fourth component of a mapping); otherwise it raises *)
+Theorem C17_symbolic_raises_iff_untranslatable : forall e,
+  (exists r, symbolic_g true e = Ok r) <-> translatable e = true.
+Proof. exact symbolic_total_iff. Qed.
+Print Assumptions C17_symbolic_raises_iff_untranslatable.
+
+(* with every sub-expression entered, VectorFunction queries and interface operators looked through: equal to the
+   true maximum for EVERY kernel (matrices, functions, exponents, interface operators) and every query; the
+   remaining guard is pure chains *)
 Theorem C17_repaired_max_physical_exact : forall e q t d,
-  pure_chains e = true -> get_max_phys_g true true e q = Some t -> is_phys d = true ->
+  pure_chains e = true -> get_max_phys_g true true true e q = Some t -> is_phys d = true ->
   proj_of d t = true_max d e q.
 Proof. exact max_phys_g_exact. Qed.
 Print Assumptions C17_repaired_max_physical_exact.
 
 Theorem C17_repaired_max_logical_exact : forall e q t d,
-  pure_chains e = true -> get_max_log_g true true e q = Some t -> is_log d = true ->
+  pure_chains e = true -> get_max_log_g true true true e q = Some t -> is_log d = true ->
   proj_of d t = true_max d e q.
 Proof. exact max_log_g_exact. Qed.
 Print Assumptions C17_repaired_max_logical_exact.
 
+(* the current code (interface operators not looked through): exact for every kernel without chains over a function
+   restricted to a side of an interface *)
+Theorem C17_current_max_exact_partial : forall e q t d,
+  pure_chains e = true -> unsided_chains e = true ->
+  (get_max_phys_g true true false e q = Some t -> is_phys d = true -> proj_of d t = true_max d e q) /\
+  (get_max_log_g true true false e q = Some t -> is_log d = true -> proj_of d t = true_max d e q).
+Proof. exact max_g_current_exact. Qed.
+Print Assumptions C17_current_max_exact_partial.
+
 (* never more than the truth, whichever repairs are applied *)
-Theorem C17_any_variant_never_more : forall ea vq e q t d,
-  (get_max_phys_g ea vq e q = Some t -> is_phys d = true -> proj_of d t <= true_max d e q) /\
-  (get_max_log_g ea vq e q = Some t -> is_log d = true -> proj_of d t <= true_max d e q).
+Theorem C17_any_variant_never_more : forall ea vq sq e q t d,
+  (get_max_phys_g ea vq sq e q = Some t -> is_phys d = true -> proj_of d t <= true_max d e q) /\
+  (get_max_log_g ea vq sq e q = Some t -> is_log d = true -> proj_of d t <= true_max d e q).
 Proof. intros. split; [apply max_phys_g_le_true|apply max_log_g_le_true]. Qed.
 Print Assumptions C17_any_variant_never_more.
 
@@ -221,14 +354,14 @@ Example C17_nonvacuous_names :
   let w1 := FComp "w" 1 in
   nosep (fname w1) /\ nosep (fname (FScal "phi")) /\
   pure [Dy; Dx; Dz; Dx] = true /\ pure [D3; D1; D3] = true /\
-  chain_name [Dy; Dx; Dz; Dx] w1 = "w_1_xxyz" /\ chain_name [Dx; Dx; Dy; Dz] w1 = "w_1_xxyz" /\
-  chain_name [D3; D1; D3] (FScal "phi") = "phi_x1x3x3" /\ chain_name [] w1 = "w_1" /\
+  chain_name [Dy; Dx; Dz; Dx] w1 = Ok "w_1_xxyz" /\ chain_name [Dx; Dx; Dy; Dz] w1 = Ok "w_1_xxyz" /\
+  chain_name [D3; D1; D3] (FScal "phi") = Ok "phi_x1x3x3" /\ chain_name [] w1 = Ok "w_1" /\
   chain_name [Dx; Dx; Dy; Dy] w1 <> chain_name [Dy; Dx; Dz; Dx] w1.
 Proof. repeat split; try reflexivity. discriminate. Qed.
 
 Example C17_nonvacuous_family :
   ~ ext "u_h" "v_h" /\ ~ ext "v_h" "u_h" /\ ~ nosep "u_h" /\ ext "u_x" "u" /\
-  chain_name [Dx] (FScal "u_h") = "u_h_x" /\ chain_name [] (FComp "B_h" 2) = "B_h_2".
+  chain_name [Dx] (FScal "u_h") = Ok "u_h_x" /\ chain_name [] (FComp "B_h" 2) = Ok "B_h_2".
 Proof.
   repeat split; try (intros [t E]; discriminate E); try discriminate.
   exists "x". reflexivity.
@@ -239,9 +372,27 @@ Example C17_nonvacuous_orders :
   let k := Add [Mul [Sym "alpha"; Chain [Dx; Dx] (FScal "u")];
                 Pow (Chain [Dy; Dx] (FComp "w" 0)) (Num "2");
                 Tup [Chain [D2; D2; D2] (FScal "u")]] in
-  entered k = true /\ pure_chains k = true /\ exps_plain k = true /\
+  entered k = true /\ pure_chains k = true /\ unsided_chains k = true /\ exps_plain k = true /\
   get_max_phys k None = Some (2, 1, 0) /\ get_max_log k None = Some (0, 3, 0) /\
   get_max_phys k (Some (QAtom (FComp "w" 0))) = Some (1, 1, 0) /\
   true_max Dx k None = 2 /\ true_max D2 k (Some (QAtom (FScal "u"))) = 3 /\
-  symbolic k = Add [Mul [Sym "alpha"; Sym "u_xx"]; Pow (Sym "w_0_xy") (Num "2"); Tup [Sym "u_x2x2x2"]].
+  symbolic k = Ok (Add [Mul [Sym "alpha"; Sym "u_xx"]; Pow (Sym "w_0_xy") (Num "2"); Tup [Sym "u_x2x2x2"]]).
 Proof. repeat split. Qed.
+
+(* hygienic atoms of every kind exist, their identity is visible in the name, and a typical interface kernel
+   (integrand * weighted volume, Jacobian entries, both sides) is translated as stated *)
+Example C17_nonvacuous_all_atoms :
+  let M := MPlain "M" SMinus in let N := MPlain "N" SPlus in
+  let um := FSide false (FScal "u") in
+  hyg um /\ hyg (FMap M 0) /\ hyg (FMap N 1) /\ akey_of um = KFun "u" /\ akey_of (FMap N 1) = KCoord 1 true /\
+  chain_name [D1; D2] (FMap M 0) = Ok "x_x1x2" /\ chain_name [D2; D1] (FMap N 1) = Ok "y_plus_x1x2" /\
+  chain_name [Dx] um = Ok "u_x" /\ chain_name [] (FMap M 3) = Err EValue /\
+  let k := Mul [Add [Chain [D1] um; Mul [Num "-1"; Chain [D1] (FSide true (FScal "v"))]];
+                Chain [D1] (FMap M 0); Pow (Geo (GDet true (MIface "M" "N"))) (Num "-1"); Geo (GWvol (MIface "M" "N"))] in
+  translatable k = true /\ pure_chains k = true /\ unsided_chains k = false /\
+  symbolic_g true k = Ok (Mul [Add [Sym "u_x1"; Mul [Num "-1"; Sym "v_x1"]]; Sym "x_x1";
+                               Pow (Sym "det_Jacobian(M|N)") (Num "-1"); Sym "wvol_M"]) /\
+  get_max_log_g true true true k None = Some (1, 0, 0) /\ get_max_log_g true true false k None = Some (0, 0, 0) /\
+  true_max D1 k None = 1 /\
+  symbolic_g true (Add [k; Opaque true]) = Err ENotImpl.
+Proof. repeat split; try (simpl; lia); try (intros [H|[H|H]]; discriminate). Qed.
